@@ -83,8 +83,12 @@ Definition target_prefixes (t : str) : list str :=
      GN  add_class_arguments(C, n)                C(child: D)            typehint action n.child + group n
      GNN add_class_arguments(C, n)                C(child: D(sub: E))    typehint action n.child + group n *)
 Inductive shape := ShG | ShS | ShSN | ShSNN | ShGN | ShGNN
-                 | ShGI.   (* add_class_arguments(C, n, instantiate=False): never constructed, not a component, cannot be a source;
+                 | ShGI    (* add_class_arguments(C, n, instantiate=False): never constructed, not a component, cannot be a source;
                               its parameters are plain cfg entries, link targets that only the FINAL pass can fill *)
+                 | ShTI.   (* add_argument("--n", type=Optional[Base]) given no value: a WHOLE class-typed argument that is a link
+                              target (link(src, "n")): link_arguments replaces its action by the link action, so it is no
+                              component, nothing is constructed for it, never a source; the final pass type-checks the value
+                              (target_action._check_type) and writes it to cfg["n"] *)
 Record decl := { d_name : str; d_shape : shape }.
 
 Inductive ckind := KType | KGroup.
@@ -96,7 +100,7 @@ Definition dotted (l : list str) : str := join_dot l.
 Definition type_comps (d : decl) : list comp :=
   let n := d_name d in
   match d_shape d with
-  | ShG | ShGI => []
+  | ShG | ShGI | ShTI => []
   | ShS => [{| c_dest := n; c_kind := KType; c_units := [n] |}]
   | ShSN => [{| c_dest := n; c_kind := KType; c_units := [dotted [n; s_init_args; s_sub]; n] |}]
   | ShSNN => [{| c_dest := n; c_kind := KType;
@@ -314,12 +318,20 @@ Fixpoint source_objects (cs : list comp) (st : state) (ks : list str) : option (
   end.
 
 (* the body of the `for action in link_actions` loop; None = exception escapes *)
+(* set_target_value, target_key == target_action.dest (the target is a whole class-typed argument, a key without dots):
+   target_action._check_type(value) raises for a value that is neither an instance of the (scratch) base class nor None;
+   of the values of the harness these are 0, "" and False. *)
+Definition whole_target (l : link) : bool := Nat.eqb (depth (l_target l)) 1.
+Definition ill_typed (l : link) (v : value) : bool :=
+  whole_target l && match v with VBase (BLit n) => negb (N.eqb n 0) | _ => false end.
+
 Definition apply_one (cs : list comp) (st : state) (l : link) : option state :=
   match source_objects cs st (l_srcs l) with
   | None => None
   | Some [] => Some st
   | Some (b :: bs) =>
       let v := if l_fn l then VFn (l_id l) (b :: bs) else VBase b in
+      if ill_typed l v then None else
       Some {| st_inst := st_inst st;
               st_applied := l_id l :: st_applied st;
               st_vals := (l_id l, v) :: st_vals st;
@@ -445,7 +457,8 @@ Definition norm_event (e : event) : event :=
   | ECfg u args => ECfg u (fold_right insert_arg [] args)
   end.
 
-(* sinks: the groups declared with instantiate=False; after the final pass the returned cfg is read for each of them *)
+(* sinks: the groups declared with instantiate=False and the whole class-typed arguments that are link targets; after the
+   final pass the returned cfg is read for each of them *)
 Definition instantiate (cs : list comp) (sinks : list str) (ls : list link) : outcome * list event :=
   match inst_order cs ls with
   | Order order =>
@@ -462,7 +475,7 @@ Definition instantiate (cs : list comp) (sinks : list str) (ls : list link) : ou
   end.
 
 Definition sinks_of (ds : list decl) : list str :=
-  flat_map (fun d => match d_shape d with ShGI => [d_name d] | _ => [] end) ds.
+  flat_map (fun d => match d_shape d with ShGI | ShTI => [d_name d] | _ => [] end) ds.
 
 (* the whole scenario: declare, link in the given order, parse, instantiate_classes *)
 Definition run (ds : list decl) (ls : list link) : outcome * list event :=
